@@ -386,6 +386,7 @@ class LoopMixin:
         saved = self.write_log
         self.write_log = log
         self.body_read_mark = len(self.read_log) if self.read_log is not None else 0
+        self.in_loop_step += 1
         try:
             try:
                 self.exec_block(node.body, env)
@@ -394,6 +395,7 @@ class LoopMixin:
             except BreakSignal:
                 raise Unsupported('break in a loop with invariant')
         finally:
+            self.in_loop_step -= 1
             self.write_log = saved
             if saved is not None:
                 saved.extend(log)
